@@ -45,6 +45,18 @@ CLAIMED: dict[str, tuple[str, str, str, str]] = {
             "6-file projects; per-file rule = all rules but dry.*/stringly-typed.*; `dry --config <file without "
             "dry section>` excluded (overlay-vs-replace semantics undocumented).",
             TECH),
+    "C14": ("DESIGN.md §5 C14",
+            "spec/Collect.tla states which files must / must not be linted (layer A) and models the coded walk "
+            "(os.walk pruning, exclusion on all path parts, fnmatch-style ignore matching; layer B); TLC checks "
+            "B against A exhaustively for all ignore-pattern sets of size <=2 over 11 documented pattern forms x "
+            "3 targets x recursive flag on a 145-file universe (every always-excluded name at depth 1 and 2, "
+            "compiled artefacts, near-miss names) with a non-vacuity run of the pinned commit's prefix fallback; "
+            "all 402 cases are executed with the real CLI per carrier (.thailintignore, yaml, json, pyproject), "
+            "with must-skip files also named explicitly; lint decisions recorded by the H2 tap and reported "
+            "files are judged by TLC (CollectTrace.tla: Visited / Missed / NotReported + layer-B drift).",
+            "Names are atoms in TLA+ (prefix relation tabulated); pattern forms limited to the documented ones; "
+            "`**/name` at depth 0 carries no verdict; symlink-free trees; visiting observed through magic-numbers.",
+            TECH),
 }
 
 REASON_NOT_YET = ("no check registered yet in this build; the TLA+ technique applies (see DESIGN.md §5) "
